@@ -7,15 +7,23 @@ Driver handlers of the `ver` family (src/resources/version_info.rs).
     ver <hex of the block bytes> <query> [args] [tree=<abstract tree>]
     verat <align16> <hex> <query> [args]            -- block placed at an address that is align16 mod 16
 
-queries: events | events_skip <n> | fixed | translation | value <LLLLCCCC> <key: utf-16 units, 4 hex digits each>
-       | strings <LLLLCCCC> | file_info | source | langparse
+queries: events | events_skip <n> | events_skip2 <fmask> <tmask> | fixed | translation
+       | value <LLLLCCCC> <key: utf-16 units, 4 hex digits each> | strings <LLLLCCCC> | file_info | source | langparse
+
+`events_skip2 <fmask> <tmask>`: a user visitor that records every callback and DECLINES (returns
+`false` from) the i-th `file_info` callback iff bit i of `fmask` is set, and the j-th `string_table`
+callback iff bit j of `tmask` is set (i, j count the callbacks of that kind from 0, declined ones
+included; bits ≥ 64 are not set).  A declined callback is recorded, its subtree (scope, tables, strings,
+vars) is not visited.
 
 Canonical text: a slice is `<byte offset>:<byte length>=<words, 4 hex digits each | ->`, a Rust
 `String` is the hex of its UTF-8 bytes (`-` when empty).  With `tree=` the driver also runs the
 specification: `enc=1` iff the reference writer produces exactly the block, `lay=1` iff the block is
 a documented layout of the tree (`Spec.VInfo.isBlockB`; `tree=L/…` marks blocks of a writer that makes
-the layout choices at random), `spec=` the answer derived from the abstract content, `hyp=1` iff the
-block and the tree meet the hypotheses of the query's theorem (Thm/C13Queries.lean).
+the layout choices at random, `tree=B/…` blocks in which some `String` stores its value length in
+bytes: not a documented layout unless all of those have no value), `spec=` the answer derived from the
+abstract content, `hyp=1` iff the block and the tree meet the hypotheses of the query's theorem
+(Thm/C13Queries.lean; for `source`: Thm/C13Source.lean `C13_layout_source`, no side condition).
 -/
 namespace Pelite.Driver.Ver
 open Pelite.Proto Pelite.Version
@@ -121,6 +129,7 @@ def specAnswer (v : Spec.VInfo) (q : List String) : String :=
     | none => "none"
   | ["strings", l] => "[" ++ join ((Spec.stringsOf v (langPair (parseLang l))).map kvS) ++ "]"
   | ["file_info"] => mapS ((Spec.stringMapsOf v).map fun e => (⟨e.1.1, e.1.2⟩, e.2))
+  | ["source"] => utf8 (Spec.sourceOf v)
   | _ => "-"
 
 /-- the side conditions of the query's round-trip theorem (Thm/C13Queries.lean) -/
@@ -164,6 +173,8 @@ def answer (words : Sl) (q : List String) : String :=
   match q with
   | ["events"] => outStr (fun es => join (es.map evS) ";") (events words)
   | ["events_skip", n] => outStr (fun r => join (r.1.map evS) ";") (visit recorderSkip words ([], num n))
+  | ["events_skip2", fm, tm] =>
+    outStr (fun r => join (r.1.map evS) ";") (visit (recorderSkip2 (num fm) (num tm)) words ([], 0, 0))
   | ["fixed"] => outStr (fun | some f => slS f | none => "none") (fixed words)
   | ["translation"] => outStr langsS (translation words)
   | ["value", l, k] => outStr (fun | some s => utf8 s | none => "none") (value words (parseLang l) (lossy (unhexW k)))
